@@ -16,6 +16,7 @@ import (
 	"time"
 
 	"github.com/mdlayher/corerad/internal/config"
+	"github.com/mdlayher/corerad/internal/netstate"
 	"github.com/mdlayher/corerad/internal/system"
 	"github.com/mdlayher/metricslite"
 	"github.com/mdlayher/ndp"
@@ -209,12 +210,19 @@ type vAdvertiser struct {
 }
 
 func newVAdvertiser(cfg config.Interface, terminate func() bool) *vAdvertiser {
+	return newVAdvertiserW(cfg, terminate, nil)
+}
+
+// newVAdvertiserW is newVAdvertiser with a link-state watcher channel (a value sent on it makes the
+// advertiser reinitialize: every DialFunc call hands out a fresh vConn).
+func newVAdvertiserW(cfg config.Interface, terminate func() bool, watchC <-chan netstate.Change) *vAdvertiser {
 	v := &vAdvertiser{state: newVState()}
 	v.state.forwarding[cfg.Name] = true
 	v.mm = NewMetrics(metricslite.NewMemory(), "test", time.Time{}, v.state, []config.Interface{cfg})
 	cctx := NewContext(log.New(io.Discard, "", 0), v.mm, v.state)
 	v.conn = newVConn()
-	d := &system.Dialer{DialFunc: func() (*system.DialContext, error) {
+	d := system.NewDialer(cfg.Name, v.state, system.Advertise, nil)
+	d.DialFunc = func() (*system.DialContext, error) {
 		v.mu.Lock()
 		defer v.mu.Unlock()
 		c := v.conn
@@ -229,9 +237,16 @@ func newVAdvertiser(cfg config.Interface, terminate func() bool) *vAdvertiser {
 			Interface: &net.Interface{Name: cfg.Name, HardwareAddr: vMAC},
 			IP:        netip.MustParseAddr("fe80::1"),
 		}, nil
-	}}
-	v.ad = NewAdvertiser(cctx, cfg, d, nil, terminate)
+	}
+	v.ad = NewAdvertiser(cctx, cfg, d, watchC, terminate)
 	return v
+}
+
+// cur returns the connection of the current incarnation.
+func (v *vAdvertiser) cur() *vConn {
+	v.mu.Lock()
+	defer v.mu.Unlock()
+	return v.conn
 }
 
 // run starts Run in a goroutine and returns a channel with its result and the cancel func.
